@@ -101,4 +101,23 @@ PROPS = {
                      "no two select! arms become ready at the same instant (the real choice is random)",
                      "successful runs are not exercised against the real code yet"],
     ),
+    "C12": dict(
+        thm=["Bgpfu.Thm.C12"],
+        ops=[("hello", [])],
+        level_text="Theorems over all documents of the hello grammar and all URI oracles: Session::new refines a "
+                   "child-level semantics (establish_refines); for the canonical hello shape the session is established "
+                   "iff every capability is a URI, the session-id is a non-zero u32 and :base:1.0 is shared, and the "
+                   "context is the hello's (establish_iff); the version is the highest common one; and for EVERY event "
+                   "list an established session uses the framing RFC 6242 4.1 requires (established_is_usable), with "
+                   "the pinned snapshot's counter-example (v11_unusable_cex). Tied to the code by feeding generated "
+                   "hellos to the real Session::new over the in-memory transport and reading the client's own hello "
+                   "off the wire.",
+        level_note="URI validity/decomposition (iri-string) and tokenisation (quick-xml) are annotated inputs. Usability "
+                   "rests on the modelling fact that every transport implements end-of-message framing only (C06 model); "
+                   "a chunked-framing server is not exercised.",
+        rule="server hellos: base-version subsets x session-id texts (valid, 0, 2^32, negative, signed, padded, empty, "
+             "missing, duplicated) x namespace spelling x capability lists (known, unknown, url with schemes, invalid "
+             "URI, duplicates) x child order, comments, XML declaration, junk element, missing trailer; distinct by text",
+        trusted=["iri-string URI parsing (oracle)", "quick-xml tokenisation"],
+    ),
 }
